@@ -311,6 +311,13 @@ template <class G> void checkC12(const G &g, const Model &m, Fail &f) {
             if (cur != s) f.add("c12.tree", "following predecessors from " + std::to_string(v) + " does not arrive at the source (predecessors " + seqStr(res.second) + "), " + where);
         }
         if (tie) ++g_nontrivial;
+        // same call again, after a rejected one (source outside the graph): same answer
+        if (s + 1 == n) {
+            try { (void)algorithms::findGeodesicsDijkstra(g, n); } catch (...) {}
+            auto again = algorithms::findGeodesicsDijkstra(g, s);
+            if (again.first != res.first || again.second != res.second)
+                f.add("c12.repeat", "findGeodesicsDijkstra called twice with the same arguments (a rejected call with source " + std::to_string(n) + " in between) returned different results, " + where);
+        }
     }
 }
 
